@@ -35,3 +35,46 @@ def off_curve_x(rng):
     while True:
         x = rng.bits(256) % P
         if lift_x(x) is None: return x
+
+# ---------------------------------------------------------------- the repository's small test group
+# (EXHAUSTIVE_TEST_ORDER = 13: the order-13 subgroup of y^2 = x^3 + 2 over the secp256k1 field, generator
+# from src/group_impl.h).  Every scalar has ~2^252 encodings s + 13*j on 32 bytes, so VALID proofs with a
+# re-encoded DLEQ response - which have no constructible witness on the real curve - can be built.
+class SmallGroup:
+    def __init__(self, n=13, b=2,
+                 gx=0xa2482ff84bf34edfa51262fde57921dbe0dd2cb7a5914790bc71631fc09704fb,
+                 gy=0x942536cba3e494923a701cc3ee3e443fdf182aa915b8aa6a166d3b19ba84b045):
+        self.n, self.b, self.G = n, b, (gx, gy)
+        assert (gy * gy - gx ** 3 - b) % P == 0
+    def params(self): return ['--params', str(P), str(self.b), str(self.n), str(self.G[0]), str(self.G[1])]
+    def add(self, p1, p2):
+        if p1 is None: return p2
+        if p2 is None: return p1
+        (x1, y1), (x2, y2) = p1, p2
+        if x1 == x2:
+            if (y1 + y2) % P == 0: return None
+            l = 3 * x1 * x1 * inv(2 * y1, P) % P
+        else:
+            l = (y2 - y1) * inv(x2 - x1, P) % P
+        x3 = (l * l - x1 - x2) % P
+        return (x3, (l * (x1 - x3) - y1) % P)
+    def mul(self, k, pt):
+        k %= self.n; r = None
+        while k:
+            if k & 1: r = self.add(r, pt)
+            pt = self.add(pt, pt); k >>= 1
+        return r
+    def scal(self, b): return int.from_bytes(b, 'big') % self.n
+    def dleq_prove(self, sk, gen2, k2):
+        p1 = self.mul(sk, self.G); p2 = self.mul(sk, gen2); r1 = self.mul(k2, self.G); r2 = self.mul(k2, gen2)
+        if None in (p1, p2, r1, r2): return None
+        e = self.scal(tagged('DLEQ', ser33(p1) + ser33(gen2) + ser33(p2) + ser33(r1) + ser33(r2)))
+        return (k2 + e * sk) % self.n, e
+    def adaptor_encrypt(self, d, Y, m, k, k2):
+        R = self.mul(k, Y); Rp = self.mul(k, self.G)
+        pr = self.dleq_prove(k, Y, k2)
+        if R is None or pr is None: return None
+        s, e = pr; sigr = R[0] % self.n
+        sp = inv(k, self.n) * (m + sigr * d) % self.n
+        if sigr == 0 or sp == 0: return None
+        return R, Rp, sp, e, s
